@@ -540,6 +540,57 @@ PROPS["C07"] = dict(
     note="Bounded by string length and the one-table plan. Trusted: engine (incl. strconv.Quote run from source), template evaluator, z3.",
 )
 
+_cmdapi_stubs = {'(*ariga.io/atlas/cmd/atlas/internal/cmdapi.Env).openClient': 'verifStubOpenClient',
+ '(*ariga.io/atlas/cmd/atlas/internal/cmdapi.MigrateReport).Done': 'verifStubReportDone',
+ '(*ariga.io/atlas/cmd/atlas/internal/cmdapi.MigrateReport).Init': 'verifStubReportInit',
+ '(*ariga.io/atlas/cmd/atlas/internal/cmdapi.MigrateReport).RecordPlanError': 'verifStubReportPlanError',
+ '(*ariga.io/atlas/cmd/atlas/internal/cmdapi.MigrateReport).RecordTargetID': 'verifStubReportTargetID',
+ '(*ariga.io/atlas/cmd/atlas/internal/cmdlog.MigrateApply).Log': 'verifStubLog',
+ '(*ariga.io/atlas/sql/sqlclient.Client).Close': 'verifStubClose',
+ '(*ariga.io/atlas/sql/sqlclient.Client).Tx': 'verifStubTx',
+ '(*ariga.io/atlas/sql/sqlclient.TxClient).Commit': 'verifStubCommit',
+ '(*ariga.io/atlas/sql/sqlclient.TxClient).Rollback': 'verifStubRollback',
+ 'ariga.io/atlas/cmd/atlas/internal/cmdapi.checkRevisionSchemaClarity': 'verifStubSchemaClarity',
+ 'ariga.io/atlas/cmd/atlas/internal/cmdapi.entRevisions': 'verifStubEntRevisions',
+ 'ariga.io/atlas/cmd/atlas/internal/cmdapi.operatorVersion': 'verifStubOperatorVersion',
+ 'ariga.io/atlas/cmd/atlas/internal/cmdapi.printChecksumError': 'verifStubPrintChecksumError',
+ 'ariga.io/atlas/cmd/atlas/internal/cmdlog.NewMigrateApply': 'verifStubNewMigrateApply',
+ 'ariga.io/atlas/cmd/atlas/internal/migrate.DirURL': 'verifStubDirURL',
+ 'github.com/spf13/cobra.CheckErr': 'verifStubCheckErr'}
+_ca = dict(module="cmd/atlas", pkg="ariga.io/atlas/cmd/atlas/internal/cmdapi", hdir="cmdapi", stubs=_cmdapi_stubs)
+PROPS["C13"] = dict(
+    _ca,
+    runs={
+        "quick": [
+            dict(_ca, harness="VerifHarness_C13_fail", reach=["failed-file", "failed-all", "failed-none"], validate=1),
+            dict(_ca, harness="VerifHarness_C13_dryrun", reach=["dry-run"], validate=1),
+            dict(_ca, harness="VerifHarness_C13_dryrun_witness", role="witness", key="C13-dry-run-writes"),
+        ],
+        "thorough": [
+            dict(_ca, harness="VerifHarness_C13_fail3", reach=["failed-file", "failed-all", "failed-none"], validate=3),
+            dict(_ca, harness="VerifHarness_C13_dryrun", reach=["dry-run"], validate=3),
+            dict(_ca, harness="VerifHarness_C13_dryrun_witness", role="witness", key="C13-dry-run-writes"),
+        ],
+    },
+    bounds={
+        "quick": "directories of 1..2 files x 1..2 statements, --tx-mode {file, all, none}, per-file `atlas:txmode` directive {absent, none, file}, every position "
+                 "of the failing statement, then fix-and-re-run; dry-run on a fresh database and on one with history, with and without --baseline",
+        "thorough": "same with up to 3 files",
+    },
+    assumptions=[
+        "engine side: the real migrateApplyRun / tx multiplexer / Executor run against a transactional model store (journal, revision table, one open "
+        "transaction with a working copy) through function substitution of the connection seam: " + ", ".join(sorted(_cmdapi_stubs)),
+        "every counterexample is replayed on the real `migrate apply` command with a real SQLite file (harness/cmdapi/zz_verif_env.go), failing statement = insert into a missing table",
+        "inputs are structural (shape, mode, directives, failing position): explored by forking",
+    ],
+    outside="schema apply (applyChanges), SQLite OpenTx foreign-key toggling and deferred violations, other dialects' implicit commits, reports / exit codes",
+    claim="For every shape, transaction mode, directive assignment and failing position within the bounds, after a failure the store holds exactly what the "
+          "mode promises (file: complete files before the failing one; all: nothing; none: the successful prefix) with revisions matching the journal, and fixing "
+          "the file and re-running reaches the fault-free final state; a dry run on a database with history changes nothing. A dry run on a database without revision "
+          "table is the listed known finding.",
+    note="Model-store based (bounded); stub fidelity is guarded by replaying counterexamples and sampled paths on the real CLI + SQLite.",
+)
+
 NOT_APPLICABLE = {
     "C01": "needs a real SQLite engine executing the planned SQL and pragma-based inspection; neither cgo code nor SQLite's DDL "
            "semantics can be encoded by an SSA-level symbolic executor, and a hand-written catalogue model would verify the model, not Atlas "
